@@ -211,7 +211,27 @@ pub fn ty_j<'tcx>(tcx: TyCtxt<'tcx>, t: Ty<'tcx>) -> J {
 		ty::FnDef(def, args) => {
 			o.put("k", J::s("fndef"));
 			o.put("def", J::s(tcx.def_path_str(*def)));
+			o.put("id", J::s(format!("{:?}", def)));
 			o.put("args", args_j(tcx, args));
+			if let rustc_hir::def::DefKind::Ctor(of, _) = tcx.def_kind(*def) {
+				// constructor of a tuple struct / tuple variant used as a function value
+				let parent = tcx.parent(*def);
+				match of {
+					rustc_hir::def::CtorOf::Struct => {
+						o.put("ctor_adt", J::s(tcx.def_path_str(parent)));
+						o.put("ctor_variant", 0usize.into());
+					}
+					rustc_hir::def::CtorOf::Variant => {
+						let adt = tcx.parent(parent);
+						o.put("ctor_adt", J::s(tcx.def_path_str(adt)));
+						let idx = tcx.adt_def(adt).variant_index_with_id(parent).as_usize();
+						o.put("ctor_variant", idx.into());
+					}
+				}
+			}
+			if let Some(tr) = tcx.trait_of_assoc(*def) {
+				o.put("trait", J::s(tcx.def_path_str(tr)));
+			}
 		}
 		ty::FnPtr(..) => {
 			o.put("k", J::s("fnptr"));
